@@ -56,7 +56,9 @@ func (s *Server) Close() {
 }
 
 func (s *Server) Handle(handler report.Handler) {
-	s.handler = handler
+	// ServeMsg runs on the netlink multiplexer goroutine, which also delivers
+	// the replies the PFCP event loop waits for: it must never block there
+	s.handler = report.NewAsyncHandler(handler)
 }
 
 func decodbuffer(b []byte) (uint64, uint16, uint16, []byte, error) {
